@@ -537,8 +537,13 @@ class Connection(object):
         # handler has initiated a new connection, meaning that we should not
         # interfere with the connection state. Otherwise, make sure that any
         # current connection is completely terminated.
-        if (self.new_networking_thread or self.networking_thread).interrupt:
-            self.disconnect(immediate=True)
+        # The lock makes the check and the disconnection atomic with respect
+        # to a concurrent 'connect()' from another thread, which could
+        # otherwise slip in between and have its new connection closed here.
+        with self._write_lock:
+            if (self.new_networking_thread or
+                    self.networking_thread).interrupt:
+                self.disconnect(immediate=True)
 
         # If allowed by the final exception handler, re-raise the exception.
         if final_handler is None and not caught:
